@@ -148,6 +148,7 @@ structure Inv (ms : PSt) (X : Bytes) (cutL : Nat) (D : Bytes) : Prop where
   hnum : ms.num = ms.rest.length
   hcst : ms.cst = ms.rest.any Node.cuttable
   hhead : ∀ n, ms.rest.getLast? = some n → n.isText = false
+  hne : ∀ t, Node.text t ∈ ms.rest → t.bs ≠ []
 
 /-- `line` is the lexer's line at the next token, or nothing has been read yet -/
 def LineOK (ms : PSt) (l : Nat) : Prop :=
@@ -425,7 +426,8 @@ theorem catchUp_line (ms : PSt) (n : Tok) (tl : List Tok) (h : ms.line ≤ n.pos
 theorem inv_catchUp {ms : PSt} {X : Bytes} {cutL : Nat} {D : Bytes} (inv : Inv ms X cutL D)
     (toks : List Tok) : Inv (catchUp ms toks) X cutL D :=
   ⟨by simpa using inv.hdone, by simpa using inv.hfirst, inv.hcut, by simpa using inv.hzero,
-   by simpa using inv.hnum, by simpa using inv.hcst, by simpa using inv.hhead⟩
+   by simpa using inv.hnum, by simpa using inv.hcst, by simpa using inv.hhead,
+   by simpa using inv.hne⟩
 
 theorem curOf_catchUp (ms : PSt) (toks : List Tok) (X : Bytes) :
     curOf (catchUp ms toks) X = curOf ms X := by simp [curOf, restItems]
@@ -448,7 +450,7 @@ theorem step_nt {ms : PSt} {X : Bytes} {cutL : Nat} {D : Bytes} (inv : Inv ms X 
   · have : decide (ms.line < l) = false := by simp [h1]
     rw [this]
     simp only [Bool.false_eq_true, if_false]
-    refine ⟨_, rfl, h1, ⟨inv.hdone, inv.hfirst, inv.hcut, ?_, ?_, ?_, ?_⟩, rfl⟩
+    refine ⟨_, rfl, h1, ⟨inv.hdone, inv.hfirst, inv.hcut, ?_, ?_, ?_, ?_, ?_⟩, rfl⟩
     · simpa [Node.zero] using inv.hzero
     · simp [inv.hnum]
     · simp [inv.hcst, Node.cuttable, Bool.or_comm]
@@ -458,6 +460,11 @@ theorem step_nt {ms : PSt} {X : Bytes} {cutL : Nat} {D : Bytes} (inv : Inv ms X 
       | cons m tl =>
         rw [hr] at hn
         exact inv.hhead n (by rw [hr]; simpa [List.getLast?_cons_cons] using hn)
+    · intro t ht
+      simp only [List.mem_cons] at ht
+      rcases ht with ht | ht
+      · cases ht
+      · exact inv.hne t ht
   · have : decide (ms.line < l) = true := by simp [h1, h2]
     rw [this]
     simp only [if_true, fire, h5, Bool.false_and, Bool.false_eq_true, if_false, h3, h4, optNode,
@@ -466,12 +473,141 @@ theorem step_nt {ms : PSt} {X : Bytes} {cutL : Nat} {D : Bytes} (inv : Inv ms X 
       rcases inv.hfirst with ⟨_, a, b⟩ | a
       · exact ⟨a, b⟩
       · rw [h3] at a; cases a
-    refine ⟨_, rfl, rfl, ⟨inv.hdone, Or.inl ⟨rfl, hX.1, hX.2⟩, inv.hcut, ?_, ?_, ?_, ?_⟩, by simp⟩
+    refine ⟨_, rfl, rfl, ⟨inv.hdone, Or.inl ⟨rfl, hX.1, hX.2⟩, inv.hcut, ?_, ?_, ?_, ?_, ?_⟩, by simp⟩
     · simp [Node.zero]
     · simp
     · simp [Node.cuttable]
     · intro n hn; simp at hn; subst hn; rfl
+    · intro t ht; simp at ht
 
+
+/-! ### a line closed by a comment -/
+
+/-- the decision `cutSpaces` takes for the group when a comment makes the loop leave the line -/
+def decC (ms : PSt) (X : Bytes) : Bool := ms.cst && ms.num == 1 && allBlank (lastAux X [])
+
+theorem close_lineC {ms : PSt} {X : Bytes} {cutL : Nat} {D : Bytes} (inv : Inv ms X cutL D) :
+    renderLineE (true, curOf ms X)
+      = if decC ms X then restBytes ms else lastAux X [] ++ restBytes ms := by
+  have hnl : noLF (lastAux X []) = true := lastAux_noLF X [] rfl
+  have hkeep : keepLine (curOf ms X) = lastAux X [] ++ restBytes ms := keepLine_curOf ms X
+  have hnum := inv.hnum
+  have hcst := inv.hcst
+  simp only [renderLineE]
+  unfold removableC decC
+  cases hr : ms.rest with
+  | nil =>
+    rw [hr] at hcst
+    simp [curOf, restItems, restBytes, hr, hcst, oneCuttable]
+  | cons n tl =>
+    cases tl with
+    | nil =>
+      rw [hr] at hcst hnum
+      cases n with
+      | text t =>
+        have : ms.cst = false := by simpa [Node.cuttable] using hcst
+        simp [curOf, restItems, restBytes, hr, this, nodeItems, nodeBytes, oneCuttable, lineToks]
+      | nt x =>
+        have hc : ms.cst = x.cuttable := by simpa [Node.cuttable] using hcst
+        have hcur : curOf ms X = bytesI (lastAux X []) ++ [.tok x] := by
+          simp [curOf, restItems, hr, nodeItems]
+        have hrb : restBytes ms = x.out := by simp [restBytes, hr, nodeBytes]
+        rw [hcur, endsWithTok_snoc_tok, hrb]
+        simp only [lineToks_append, lineToks_bytes, List.nil_append, lineToks, oneCuttable,
+          lineBlank_append, lineBlank_bytes _ hnl, lineBlank, Bool.and_true, hc, hnum,
+          List.length_singleton, beq_self_eq_true]
+        by_cases h : (x.cuttable && allBlank (lastAux X [])) = true
+        · rw [h]; simp [cutLine, lineToks]
+        · have h' : (x.cuttable && allBlank (lastAux X [])) = false := by simpa using h
+          rw [h']; simp [keepLine]
+    | cons m tl' =>
+      rw [hr] at hnum
+      have h1 : (ms.num == 1) = false := by simp [hnum]
+      have hfalse : (oneCuttable (lineToks (curOf ms X)) && lineBlank (curOf ms X)
+          && endsWithTok (curOf ms X)) = false := by
+        cases n with
+        | text t =>
+          have hb : t.bs ≠ [] := inv.hne t (by rw [hr]; simp)
+          have : curOf ms X = (bytesI (lastAux X []) ++ (m :: tl').reverse.flatMap nodeItems) ++ bytesI t.bs := by
+            simp [curOf, restItems, hr, nodeItems]
+          rw [this, endsWithTok_append_bytes _ _ hb]
+          simp
+        | nt x =>
+          have hlen : 2 ≤ (lineToks (curOf ms X)).length := by
+            have : lineToks (curOf ms X) = lineToks (restItems ms) := by simp [curOf]
+            rw [this, restItems, lineToks_nodeItems_length, ntCount_reverse, hr]
+            simp only [ntCount]
+            obtain ⟨b, hb⟩ : ∃ b, (m :: tl').getLast? = some b := by
+              cases hg : (m :: tl').getLast? with
+              | none => simp at hg
+              | some b => exact ⟨b, rfl⟩
+            have hb' : ms.rest.getLast? = some b := by
+              rw [hr]; simpa [List.getLast?_cons_cons] using hb
+            have := ntCount_pos_of_mem (List.mem_of_getLast? hb) (inv.hhead b hb')
+            omega
+          generalize lineToks (curOf ms X) = l at hlen
+          match l, hlen with
+          | a :: b :: _, _ => simp [oneCuttable]
+      rw [hfalse, h1]
+      simp [hkeep]
+
+theorem cutSpaces_none {ms : PSt} {X : Bytes} {cutL : Nat} {D : Bytes} (inv : Inv ms X cutL D) :
+    cutSpaces ms.first none
+      = (if allBlank (lastAux X []) then ms.first.map (setCutR (doneAux X []).length) else ms.first,
+         none) := by
+  unfold cutSpaces
+  rcases inv.hfirst with ⟨h1, h2, _⟩ | h1
+  · subst h2; rw [h1]; simp
+  · rw [h1]
+    simp only [scanFirst_closed]
+    by_cases hb : allBlank (lastAux X []) = true
+    · simp [hb]
+    · have hb' : allBlank (lastAux X []) = false := by simpa using hb
+      simp [hb']
+
+/-- model side: a comment that spans lines or ends the file closes the group and starts the
+next one -/
+theorem step_break {ms : PSt} {X : Bytes} {cutL : Nat} {D : Bytes} (inv : Inv ms X cutL D)
+    (x : NT) (pl lin : Nat) (at' : Bool) (hf : fires ms ⟨.nt x, pl, lin, at'⟩ = true) :
+    ∃ done', step ms ⟨.nt x, pl, lin, at'⟩ = ⟨lin, done', none, [.nt x], x.cuttable, 1⟩
+      ∧ emit done'.reverse
+        = .ok (D ++ (doneAux X []).drop cutL ++ (if decC ms X then [] else lastAux X [])
+                ++ restBytes ms) := by
+  have hrest : emit ms.rest.reverse = .ok (restBytes ms) := by
+    apply emit_zero
+    simpa using inv.hzero
+  have hp : (if (ms.cst && ms.num == 1) = true then cutSpaces ms.first none else (ms.first, none))
+      = (if decC ms X then ms.first.map (setCutR (doneAux X []).length) else ms.first, none) := by
+    rw [cutSpaces_none inv]
+    unfold decC
+    by_cases h1 : (ms.cst && ms.num == 1) = true
+    · rw [h1]; simp
+    · have : (ms.cst && ms.num == 1) = false := by simpa using h1
+      simp [this]
+  refine ⟨ms.rest ++ (optNode (if decC ms X then ms.first.map (setCutR (doneAux X []).length)
+      else ms.first) ++ ms.done), ?_, ?_⟩
+  · unfold step
+    simp only [hf, if_true, fire, hp]
+    simp
+  · simp only [List.reverse_append]
+    have hopt : ∀ o : Option TextNode, (optNode o).reverse = optNode o := by
+      intro o; cases o <;> rfl
+    rw [hopt]
+    have := emit_append inv.hdone (emit_append (emit_first inv (decC ms X)) hrest)
+    rw [List.append_assoc, this]
+    simp
+
+theorem items_isEmpty (rs : List Raw) (h : rs.all Raw.wf = true) : (items rs).isEmpty = rs.isEmpty := by
+  cases rs with
+  | nil => rfl
+  | cons r rs' =>
+    cases r with
+    | nt t => simp [items]
+    | text bs =>
+      simp only [List.all_cons, Bool.and_eq_true, Raw.wf] at h
+      cases bs with
+      | nil => simp at h
+      | cons b bs' => simp [items]
 
 /-! ### the induction over the tokens -/
 
@@ -497,79 +633,137 @@ theorem inClass_nt (x : NT) (rs : List Raw) (h : inClass (.nt x :: rs) = true) :
     · simpa using h1
 
 theorem sim (total : Nat) (rs : List Raw) : ∀ (ms : PSt) (l off : Nat) (X : Bytes) (cutL : Nat) (D : Bytes),
-    rs.all Raw.wf = true → noAdj (lastIsText ms) rs = true → inClass rs = true →
+    rs.all Raw.wf = true → noAdj (lastIsText ms) rs = true →
     off + spanSum rs = total → Inv ms X cutL D → (rs ≠ [] → LineOK ms l) →
     (∀ n, ms.rest.head? = some n → n.isText = true → rs ≠ []) →
     emit (run ms (assignAux total l off rs)).nodes
       = .ok (D ++ (doneAux X []).drop cutL
-              ++ (splitLines (items rs) (curOf ms X)).flatMap renderLine) := by
+              ++ (splitLinesE (items rs) (curOf ms X)).flatMap renderLineE) := by
   induction rs with
   | nil =>
-    intro ms l off X cutL D _ _ _ _ inv _ hmore
+    intro ms l off X cutL D _ _ _ inv _ hmore
     have hh : ∀ n, ms.rest.head? = some n → n.isText = false := by
       intro n hn
       cases hb : n.isText with
       | false => rfl
       | true => exact absurd rfl (hmore n hn hb)
-    simp only [assignAux, run, items, splitLines_nil, List.flatMap_cons, List.flatMap_nil,
-      List.append_nil]
+    simp only [assignAux, run, items, splitLinesE_nil, List.flatMap_cons, List.flatMap_nil,
+      List.append_nil, renderLineE]
     exact sim_nil inv hh
   | cons r rs' ih =>
-    intro ms l off X cutL D hwf hadj hcl hoff inv hline hmore
+    intro ms l off X cutL D hwf hadj hoff inv hline hmore
     have hl : LineOK ms l := hline (by simp)
     simp only [List.all_cons, Bool.and_eq_true] at hwf
     cases r with
     | nt x =>
-      obtain ⟨hcl', hcn, hcf⟩ := inClass_nt x rs' hcl
       have hxw : x.wf = true := hwf.1
       simp only [NT.wf, Bool.and_eq_true, decide_eq_true_eq] at hxw
-      have hlin : (Raw.nt x).linAdd = 0 := by
-        simp only [Raw.linAdd]
-        by_cases hc : x.comment = true
-        · simp [hc, hcn hc]
-        · simp [hc]
-      have hat : (off + (Raw.nt x).head == total) = false := by
-        simp only [Raw.head, beq_eq_false_iff_ne, ne_eq]
-        simp only [spanSum, Raw.span] at hoff
-        by_cases hr : rs' = []
-        · have hc := hcf hr
-          subst hr
-          simp only [spanSum] at hoff
-          have := hxw.2
-          simp [hc] at this
-          omega
-        · have := spanSum_pos hwf.2 hr
-          have h2 := hxw.2
-          by_cases hc : x.comment = true
-          · simp [hc] at h2; omega
-          · simp [hc] at h2; omega
-      simp only [assignAux, hlin, hat, Nat.add_zero, run]
-      obtain ⟨ms', hs, hl', inv', hr'⟩ := step_nt inv l l hl x
-      rw [hs]
       have hadj' : noAdj false rs' = true := by simpa [noAdj] using hadj
-      have := ih (catchUp ms' (assignAux total (l + (Raw.nt x).nl) (off + (Raw.nt x).span) rs'))
-        (l + (Raw.nt x).nl) (off + (Raw.nt x).span) X cutL D hwf.2
-        (by rw [lastIsText_catchUp]; simpa [lastIsText, hr', Node.isText] using hadj')
-        hcl' (by simp only [spanSum] at hoff; omega) (inv_catchUp inv' _)
-        (by
-          intro hne
-          cases hrs : rs' with
-          | nil => exact absurd hrs hne
-          | cons r2 rs2 =>
-            left
-            refine ⟨?_, Or.inr (by simp [hr'])⟩
-            simp only [assignAux]
-            rw [catchUp_line]
-            simp only [hl']; omega)
-        (by
-          intro n hn hb
-          simp only [catchUp_rest, hr', List.head?_cons, Option.some.injEq] at hn
-          subst hn; cases hb)
-      rw [this, curOf_catchUp]
-      simp only [items, splitLines_tok]
-      have : curOf ms' X = curOf ms X ++ [Item.tok x] := by
-        simp [curOf, restItems, hr', nodeItems]
-      rw [this]
+      have hie : (items rs').isEmpty = rs'.isEmpty := items_isEmpty rs' hwf.2
+      by_cases hbrk : breaksBefore x rs'.isEmpty = true
+      · -- a comment that spans lines or ends the file: the line under construction is closed
+        simp only [breaksBefore, Bool.and_eq_true, Bool.or_eq_true, bne_iff_ne, ne_eq] at hbrk
+        obtain ⟨hcm, hwhy⟩ := hbrk
+        have hhs : x.head = x.span := by
+          have := hxw.2; simpa [hcm] using this
+        have hlin : (Raw.nt x).linAdd = x.nl := by simp [Raw.linAdd, hcm]
+        simp only [assignAux, hlin, run]
+        have hf : fires ms ⟨.nt x, l, l + x.nl, off + (Raw.nt x).head == total⟩ = true := by
+          unfold fires
+          simp only [Bool.or_eq_true, decide_eq_true_eq]
+          rcases hwhy with hnl | hlast
+          · left
+            rcases hl with ⟨h1, _⟩ | ⟨h1, h2, _⟩ <;> omega
+          · right
+            have : rs' = [] := by cases rs' <;> simp at hlast ⊢
+            subst this
+            simp only [spanSum, Raw.span, Nat.add_zero] at hoff
+            simp only [Raw.head, beq_iff_eq]; omega
+        obtain ⟨done', hs, hd⟩ := step_break inv x l (l + x.nl) _ hf
+        rw [hs]
+        have inv' : Inv ⟨l + x.nl, done', none, [.nt x], x.cuttable, 1⟩ [] 0
+            ((D ++ List.drop cutL (doneAux X []) ++ if decC ms X = true then [] else lastAux X [])
+              ++ restBytes ms) := by
+          refine ⟨hd, Or.inl ⟨rfl, rfl, rfl⟩, Nat.le_refl _, rfl, rfl, ?_, ?_, ?_⟩
+          · simp [Node.cuttable]
+          · intro n hn; simp at hn; subst hn; rfl
+          · intro t ht; simp at ht
+        have := ih (catchUp _ (assignAux total (l + (Raw.nt x).nl) (off + (Raw.nt x).span) rs'))
+          (l + (Raw.nt x).nl) (off + (Raw.nt x).span) [] 0 _ hwf.2
+          (by rw [lastIsText_catchUp]; simpa [lastIsText, Node.isText] using hadj')
+          (by simp only [spanSum] at hoff; omega) (inv_catchUp inv' _)
+          (by
+            intro hne
+            cases hrs : rs' with
+            | nil => exact absurd hrs hne
+            | cons r2 rs2 =>
+              left
+              refine ⟨?_, Or.inr (by simp)⟩
+              simp only [assignAux]
+              rw [catchUp_line]
+              simp [Raw.nl])
+          (by
+            intro n hn hb
+            simp only [catchUp_rest, List.head?_cons, Option.some.injEq] at hn
+            subst hn; cases hb)
+        rw [this, curOf_catchUp]
+        have hbb : breaksBefore x (items rs').isEmpty = true := by
+          rw [hie]; simp only [breaksBefore, hcm, Bool.true_and, Bool.or_eq_true, bne_iff_ne, ne_eq]
+          exact hwhy
+        simp only [items]
+        rw [splitLinesE_tok_break _ _ _ hbb, List.flatMap_cons, close_lineC inv]
+        have hcur : curOf ⟨l + x.nl, done', none, [.nt x], x.cuttable, 1⟩ [] = [Item.tok x] := by
+          simp [curOf, restItems, nodeItems]
+        rw [hcur]
+        cases decC ms X <;> simp
+      · -- any other statement, show or comment joins the line under construction
+        have hbrk' : breaksBefore x rs'.isEmpty = false := by simpa using hbrk
+        have hcn : x.comment = true → x.nl = 0 ∧ rs' ≠ [] := by
+          intro hc
+          simp only [breaksBefore, hc, Bool.true_and, Bool.or_eq_false_iff, bne_eq_false_iff_eq] at hbrk'
+          exact ⟨hbrk'.1, by intro e; subst e; simp at hbrk'⟩
+        have hlin : (Raw.nt x).linAdd = 0 := by
+          simp only [Raw.linAdd]
+          by_cases hc : x.comment = true
+          · simp [hc, (hcn hc).1]
+          · simp [hc]
+        have hat : (off + (Raw.nt x).head == total) = false := by
+          simp only [Raw.head, beq_eq_false_iff_ne, ne_eq]
+          simp only [spanSum, Raw.span] at hoff
+          by_cases hc : x.comment = true
+          · have := spanSum_pos hwf.2 (hcn hc).2
+            have h2 := hxw.2
+            simp [hc] at h2; omega
+          · have h2 := hxw.2
+            simp [hc] at h2; omega
+        simp only [assignAux, hlin, hat, Nat.add_zero, run]
+        obtain ⟨ms', hs, hl', inv', hr'⟩ := step_nt inv l l hl x
+        rw [hs]
+        have := ih (catchUp ms' (assignAux total (l + (Raw.nt x).nl) (off + (Raw.nt x).span) rs'))
+          (l + (Raw.nt x).nl) (off + (Raw.nt x).span) X cutL D hwf.2
+          (by rw [lastIsText_catchUp]; simpa [lastIsText, hr', Node.isText] using hadj')
+          (by simp only [spanSum] at hoff; omega) (inv_catchUp inv' _)
+          (by
+            intro hne
+            cases hrs : rs' with
+            | nil => exact absurd hrs hne
+            | cons r2 rs2 =>
+              left
+              refine ⟨?_, Or.inr (by simp [hr'])⟩
+              simp only [assignAux]
+              rw [catchUp_line]
+              simp only [hl']; omega)
+          (by
+            intro n hn hb
+            simp only [catchUp_rest, hr', List.head?_cons, Option.some.injEq] at hn
+            subst hn; cases hb)
+        rw [this, curOf_catchUp]
+        have hbb : breaksBefore x (items rs').isEmpty = false := by rw [hie]; exact hbrk'
+        simp only [items]
+        rw [splitLinesE_tok_plain _ _ _ hbb]
+        have : curOf ms' X = curOf ms X ++ [Item.tok x] := by
+          simp [curOf, restItems, hr', nodeItems]
+        rw [this]
     | text N =>
       have hN : N ≠ [] := by
         have := hwf.1; simp only [Raw.wf] at this; intro e; subst e; simp at this
@@ -583,7 +777,6 @@ theorem sim (total : Nat) (rs : List Raw) : ∀ (ms : PSt) (l off : Nat) (X : By
         | cons m tl =>
           rw [hr] at hn; simp at hn; subst hn
           simpa [lastIsText, hr] using this
-      have hcl' := inClass_tail_text N rs' hcl
       simp only [spanSum, Raw.span] at hoff
       simp only [assignAux, Raw.linAdd, Raw.head, Raw.nl, Raw.span, run, items]
       have hitems : List.map Item.byte N = bytesI N := rfl
@@ -616,11 +809,11 @@ theorem sim (total : Nat) (rs : List Raw) : ∀ (ms : PSt) (l off : Nat) (X : By
             · have hd'' : dec ms X N = false := by simpa using hd'
               rw [emitNode_text _ _ _ (by simp [hd''])]
               simp [hd'']
-          have hsp : splitLines (bytesI N) (curOf ms X) = [curOf ms X ++ bytesI N] := by
-            have := splitLines_noLF N [] (curOf ms X) hlf
+          have hsp : splitLinesE (bytesI N) (curOf ms X) = [(false, curOf ms X ++ bytesI N)] := by
+            have := splitLinesE_noLF N [] (curOf ms X) hlf
             simpa using this
           rw [emit_append hd hnode, hsp]
-          simp only [List.flatMap_cons, List.flatMap_nil, List.append_nil]
+          simp only [List.flatMap_cons, List.flatMap_nil, List.append_nil, renderLineE]
           rw [close_line inv hh N hN (allBlank N) (lineBlank_bytes N hlf), ← hdec]
           cases dec ms X N <;> simp
         · -- not the last token
@@ -645,7 +838,7 @@ theorem sim (total : Nat) (rs : List Raw) : ∀ (ms : PSt) (l off : Nat) (X : By
               simp [h1]
             rw [hat, hst]
             have inv' : Inv { ms with rest := .text ⟨N, 0, 0⟩ :: ms.rest, num := ms.num + 1 } X cutL D := by
-              refine ⟨inv.hdone, inv.hfirst, inv.hcut, ?_, ?_, ?_, ?_⟩
+              refine ⟨inv.hdone, inv.hfirst, inv.hcut, ?_, ?_, ?_, ?_, ?_⟩
               · simpa [Node.zero] using inv.hzero
               · simp [inv.hnum]
               · simp [inv.hcst, Node.cuttable]
@@ -655,9 +848,14 @@ theorem sim (total : Nat) (rs : List Raw) : ∀ (ms : PSt) (l off : Nat) (X : By
                 | cons m tl =>
                   simp only [hr, List.getLast?_cons_cons] at hn
                   exact inv.hhead n (by rw [hr]; exact hn)
+              · intro t ht
+                simp only [List.mem_cons] at ht
+                rcases ht with ht | ht
+                · cases ht; exact hN
+                · exact inv.hne t ht
             have := ih (catchUp _ (assignAux total l (off + N.length) rs')) l (off + N.length) X cutL D
               hwf.2 (by rw [lastIsText_catchUp]; simpa [lastIsText, Node.isText] using hlt.2)
-              hcl' (by omega) (inv_catchUp inv' _)
+              (by omega) (inv_catchUp inv' _)
               (by
                 intro _
                 left
@@ -669,7 +867,7 @@ theorem sim (total : Nat) (rs : List Raw) : ∀ (ms : PSt) (l off : Nat) (X : By
                   rw [catchUp_line]
                   simp [h1])
               (by intro _ _ _; exact hrs)
-            rw [this, curOf_catchUp, splitLines_noLF _ _ _ hlf]
+            rw [this, curOf_catchUp, splitLinesE_noLF _ _ _ hlf]
             have : curOf { ms with rest := .text ⟨N, 0, 0⟩ :: ms.rest, num := ms.num + 1 } X
                 = curOf ms X ++ bytesI N := by
               simp [curOf, restItems, nodeItems]
@@ -694,11 +892,12 @@ theorem sim (total : Nat) (rs : List Raw) : ∀ (ms : PSt) (l off : Nat) (X : By
             rw [hrb] at hd
             simp only [doneAux_nil, List.drop_nil, lastAux_nil, List.append_nil] at hd
             have inv' : Inv ⟨l, done', some ⟨N, 0, 0⟩, [], false, 0⟩ N 0 D := by
-              refine ⟨hd, Or.inr rfl, Nat.zero_le _, rfl, rfl, rfl, ?_⟩
-              intro n hn; cases hn
+              refine ⟨hd, Or.inr rfl, Nat.zero_le _, rfl, rfl, rfl, ?_, ?_⟩
+              · intro n hn; cases hn
+              · intro t ht; cases ht
             have := ih (catchUp _ (assignAux total l (off + N.length) rs')) l (off + N.length) N 0 D
               hwf.2 (by rw [lastIsText_catchUp]; simpa [lastIsText] using hlt.2)
-              hcl' (by omega) (inv_catchUp inv' _)
+              (by omega) (inv_catchUp inv' _)
               (by
                 intro _
                 left
@@ -710,7 +909,7 @@ theorem sim (total : Nat) (rs : List Raw) : ∀ (ms : PSt) (l off : Nat) (X : By
                   rw [catchUp_line]
                   simp)
               (by intro n hn; simp at hn)
-            rw [this, curOf_catchUp, splitLines_noLF _ _ _ hlf]
+            rw [this, curOf_catchUp, splitLinesE_noLF _ _ _ hlf]
             simp [curOf, restItems, h4, doneAux_of_noLF N [] hlf, lastAux_of_noLF N [] hlf]
       · -- the text has a LF: the line under construction ends in it
         have hlf' : noLF N = false := by simpa using hlf
@@ -748,14 +947,15 @@ theorem sim (total : Nat) (rs : List Raw) : ∀ (ms : PSt) (l off : Nat) (X : By
         have inv' : Inv ⟨l + nlCount N, done', some ⟨N, c, 0⟩, [], false, 0⟩ N c
             ((D ++ List.drop cutL (doneAux X []) ++ if dec ms X N = true then [] else lastAux X [])
               ++ restBytes ms) := by
-          refine ⟨hd, Or.inr rfl, hc, rfl, rfl, rfl, ?_⟩
-          intro n hn; cases hn
+          refine ⟨hd, Or.inr rfl, hc, rfl, rfl, rfl, ?_, ?_⟩
+          · intro n hn; cases hn
+          · intro t ht; cases ht
         have := ih (catchUp _ (assignAux total (l + nlCount N) (off + N.length) rs'))
           (l + nlCount N) (off + N.length) N c
           ((D ++ List.drop cutL (doneAux X []) ++ if dec ms X N = true then [] else lastAux X [])
               ++ restBytes ms)
           hwf.2 (by rw [lastIsText_catchUp]; simpa [lastIsText] using hlt.2)
-          hcl' (by omega) (inv_catchUp inv' _)
+          (by omega) (inv_catchUp inv' _)
           (by
             intro hne
             left
@@ -771,9 +971,9 @@ theorem sim (total : Nat) (rs : List Raw) : ∀ (ms : PSt) (l off : Nat) (X : By
         have hcur : curOf ⟨l + nlCount N, done', some ⟨N, c, 0⟩, [], false, 0⟩ N = bytesI (lastAux R []) := by
           simp [curOf, restItems, hln]
         rw [hcur]
-        conv => rhs; rw [hN', splitLines_first_LF H R _ _ hH]
-        simp only [List.flatMap_cons]
-        have hrt := render_text_lines R [] (items rs')
+        conv => rhs; rw [hN', splitLinesE_first_LF H R _ _ hH]
+        simp only [List.flatMap_cons, renderLineE]
+        have hrt := render_text_linesE R [] (items rs')
         simp only [bytesI_nil] at hrt
         rw [hrt]
         have hcl1 : curOf ms X ++ bytesI H ++ [Item.byte LF] = curOf ms X ++ bytesI (H ++ [LF]) := by simp
